@@ -189,3 +189,29 @@ pub mod async_lock {
     }
 }
 
+
+pub mod peer {
+    /// C09.R1 control: an index bounded against one collection, applied to another.
+    pub fn ctl_unguarded_index(a: &[u64], b: &[u64], want: u64) -> u64 {
+        let mut sum = 0;
+        if let Some(r) = a.iter().position(|x| *x == want) {
+            for i in 0..r {
+                sum += b[i];
+            }
+        }
+        sum
+    }
+
+    /// C09.R1 control: `len() - 1` on a possibly empty list.
+    pub fn ctl_unguarded_last(a: &[u64]) -> u64 {
+        a[a.len() - 1]
+    }
+
+    /// C09.R3 control: the loop condition reads `flags`, the body only changes `items`.
+    pub fn ctl_loop_cannot_exit(items: &mut Vec<u64>, flags: &mut Vec<bool>) -> usize {
+        while !flags.is_empty() && flags[flags.len() - 1] {
+            items.pop();
+        }
+        items.len()
+    }
+}
